@@ -474,9 +474,16 @@ impl BitDepth {
                 let is_signed = (sample & (1u32 << (bits_per_sample - 1))) != 0;
                 let mantissa = sample & mantissa_mask;
                 let exp = ((sample & exp_mask) >> mantissa_bits) as i32;
-                let exp = exp - ((1 << (exp_bits - 1)) - 1);
+                let bias = (1 << (exp_bits - 1)) - 1;
+                // With 8 exponent bits the fields map onto `f32` one to one; narrower formats need their
+                // special exponents (zero / subnormal, infinity / NaN) translated.
+                if exp == 0 || exp == (1 << exp_bits) - 1 {
+                    if let Some(v) = Self::special_float_sample(exp, mantissa, exp_bits, mantissa_bits) {
+                        return if is_signed { -v } else { v };
+                    }
+                }
+                let exp = exp - bias;
 
-                // TODO: handle subnormal values.
                 let f32_mantissa_bits = f32::MANTISSA_DIGITS - 1;
                 let mantissa = match mantissa_bits.cmp(&f32_mantissa_bits) {
                     std::cmp::Ordering::Less => mantissa << (f32_mantissa_bits - mantissa_bits),
@@ -490,6 +497,26 @@ impl BitDepth {
                 f32::from_bits(bits)
             }
         }
+    }
+}
+
+impl BitDepth {
+    /// Magnitude of a float sample whose exponent field is all zeros or all ones, for formats with
+    /// fewer than 8 exponent bits.
+    #[cold]
+    fn special_float_sample(exp: i32, mantissa: u32, exp_bits: u32, mantissa_bits: u32) -> Option<f32> {
+        if exp_bits >= 8 {
+            return None;
+        }
+        let bias = (1 << (exp_bits - 1)) - 1;
+        Some(if exp == 0 {
+            // Zero and subnormal values: no implicit leading one.
+            mantissa as f32 * 2f32.powi(1 - bias - mantissa_bits as i32)
+        } else if mantissa == 0 {
+            f32::INFINITY
+        } else {
+            f32::NAN
+        })
     }
 }
 
